@@ -320,12 +320,16 @@ func (e aeEvent) coq() string {
 		return u.App("EvCIDRotate", u.Z(e.n))
 	case 5:
 		return "EvRetireCID"
+	case 12:
+		return u.App("EvDgramEnc", "true", u.Z(e.n))
+	case 13:
+		return u.App("EvDgramEnc", "false", u.Z(e.n))
 	}
 	return u.App("EvDgram", u.Z(e.n))
 }
 
 func (e aeEvent) String() string {
-	return fmt.Sprintf("%s(%d,%d)", []string{"data", "open", "cid", "dgram", "cid-rotate", "client-rotate", "read", "finish-uni", "data-to-window", "open-to-limit", "data-contiguous", "open-to-peer-credit"}[e.kind], e.ty, e.n)
+	return fmt.Sprintf("%s(%d,%d)", []string{"data", "open", "cid", "dgram", "cid-rotate", "client-rotate", "read", "finish-uni", "data-to-window", "open-to-limit", "data-contiguous", "open-to-peer-credit", "dgram-0x31-payload", "dgram-0x30-payload"}[e.kind], e.ty, e.n)
 }
 
 // prober tracks what the (simulated) peer has used so far and turns abstract events into frames.
@@ -424,8 +428,28 @@ func (p *prober) do(e aeEvent) (int64, string) {
 		p.vc.ClientRotate()
 		p.trace = append(p.trace, "client switches to the next connection ID and retires seq 0")
 		return 0, ""
+	case 12: // DATAGRAM with a length field (type 0x31), payload of n bytes
+		b := quicvarint.Append([]byte{0x31}, uint64(e.n))
+		return p.vc.Frames(append(b, make([]byte, e.n)...))
+	case 13: // DATAGRAM without a length field (type 0x30), payload of n bytes
+		return p.vc.Frames(frDatagram(int(e.n) + 1))
 	}
 	return p.vc.Frames(frDatagram(int(e.n)))
+}
+
+// dgramOfSize: the event for a DATAGRAM frame of total size sz in the given encoding (false if
+// no payload length gives that size with a length field)
+func dgramOfSize(withLen bool, sz int64) (aeEvent, bool) {
+	if !withLen {
+		return aeEvent{kind: 13, n: sz - 1}, sz >= 1
+	}
+	for _, l := range []int64{1, 2, 4, 8} {
+		p := sz - 1 - l
+		if p >= 0 && int64(quicvarint.Len(uint64(p))) == l {
+			return aeEvent{kind: 12, n: p}, true
+		}
+	}
+	return aeEvent{}, false
 }
 
 // normalize adapts a connection ID event to the state of the connection: the client's own
@@ -792,6 +816,9 @@ func goEnforcedFor(p quic.VerifAdvEnfCfg, adv [kNum]int64, specDriven bool) (e [
 		e[kDgram] = 16383
 	}
 	e[kIdleMs] = max(e[kIdleMs], adv[kIdleMs])
+	if adv[kIdleMs] == 0 {
+		e[kIdleMs] = (1<<63 - 1) / 4 / 1000000 // none advertised: no idle timeout of its own
+	}
 	return e
 }
 
@@ -900,7 +927,11 @@ func genEvents(r *u.Rng, adv, enf [kNum]int64) []aeEvent {
 			if t > 70000 {
 				t = 70000
 			}
-			evs = append(evs, aeEvent{3, 0, t})
+			if e, ok := dgramOfSize(r.Bool(), t); ok && r.Chance(2, 3) {
+				evs = append(evs, e)
+			} else {
+				evs = append(evs, aeEvent{3, 0, t})
+			}
 		}
 	}
 	return evs
@@ -1099,8 +1130,9 @@ func runAdvEnf(w *bufio.Writer, seed uint64, n int, args []string) {
 		var client string
 		if i >= n {
 			client = parrotNames[(i-n)/gridPer]
-		} else if i < len(clients) {
-			client = clients[i]
+		} else if i < 2*len(clients) {
+			// cases [len(clients), 2*len(clients)): the fixed DATAGRAM table, every client once more
+			client = clients[i%len(clients)]
 		} else {
 			client = clients[cr.Intn(len(clients))]
 		}
@@ -1145,8 +1177,10 @@ func runAdvEnf(w *bufio.Writer, seed uint64, n int, args []string) {
 			if i >= n {
 				cfg = gridCfg((i-n)%gridPer, adv0)
 				dist["cfg=grid"]++
-			} else if i >= len(clients) {
+			} else if i >= 2*len(clients) {
 				cfg = genAeCfg(u.NewRng(cfgSeed), adv0)
+			} else if i >= len(clients) {
+				cfg = aeCfg{DG: true}
 			}
 			desc := fmt.Sprintf("case=%d client=%s %s peerIdle=%v", i, client, cfg, peer.MaxIdleTimeout)
 
@@ -1249,6 +1283,23 @@ func runAdvEnf(w *bufio.Writer, seed uint64, n int, args []string) {
 
 			// probes
 			evs := genEvents(u.NewRng(evSeed), adv, genf)
+			if i >= len(clients) && i < 2*len(clients) {
+				// fixed table: DATAGRAM frames of both encodings at the boundaries: what fits a packet
+				// the client accepts (advertised size, max_udp_payload_size, receive buffer), the size
+				// handleDatagramFrame enforces, and one frame beyond it (the error ends the case)
+				evs = nil
+				capSz := min(adv[kDgram], min(adv[kUDP], int64(protocol.MaxPacketBufferSize))-18)
+				for _, sz := range []int64{1, 2, 3, 65, 66, 67, capSz - 2, capSz - 1, capSz, 16382, 16383} {
+					for _, withLen := range []bool{false, true} {
+						if e, ok := dgramOfSize(withLen, sz); ok && sz >= 1 {
+							evs = append(evs, e)
+						}
+					}
+				}
+				e, _ := dgramOfSize(i%2 == 0, 16384)
+				evs = append(evs, e)
+				dist["dgram-table"]++
+			}
 			pr := &prober{vc: vc, adv: adv, keyPrefix: "advenf/" + clientKey(client)}
 			var obs []string
 			sawErr := false
@@ -1420,7 +1471,9 @@ func runAdvEnf(w *bufio.Writer, seed uint64, n int, args []string) {
 			case peerMs > 0:
 				expectNs = peerMs * 1e6
 			}
-			if expectNs < 0 || enf.IdleTimeout < expectNs {
+			// "no idle timeout" as the connection holds it: u_connection.go noIdleTimeout = MaxInt64/4 ns
+			const noIdleNs = int64(1<<63-1) / 4
+			if expectNs < 0 && enf.IdleTimeout < noIdleNs || expectNs >= 0 && enf.IdleTimeout < expectNs {
 				need := [kNum]int64{}
 				need[kIdleMs] = adv[kIdleMs]
 				lb := label(client, kIdleMs, cfg, need, genf)
@@ -1431,6 +1484,42 @@ func runAdvEnf(w *bufio.Writer, seed uint64, n int, args []string) {
 					fmt.Sprintf("the client's idle timeout (%v) is below the one its peer derives from the advertised max_idle_timeout (%d ms; peer's own %d ms)", time.Duration(enf.IdleTimeout), adv[kIdleMs], peerMs), desc)
 			}
 		}()
+	}
+	// the sending side: Conn.SendDatagram against the peer's max_datagram_frame_size (fixed table)
+	if only < 0 {
+		if vc, err := quic.VerifAdvEnfBuild(nil, &quic.Config{EnableDatagrams: true}, advenfClientTLS()); err == nil {
+			vc.ApplyPeer(advenfPeer)
+			for _, mdfs := range []int64{1, 2, 3, 4, 64, 65, 66, 67, 68, 1200, 16383, 16384, 16385, 16386, 16387, 16388, 16389, 16390, 65536} {
+				for _, mtu := range []int64{100000, 1200} {
+					// payloads around the largest one that makes a frame (type, length, payload) within mdfs
+					var best int64
+					for p := int64(0); p <= mdfs; p++ {
+						if 1+int64(quicvarint.Len(uint64(p)))+p <= mdfs {
+							best = p
+						} else if p > 70 && p < mdfs-10 {
+							p = mdfs - 10 // skip the middle
+						}
+					}
+					for _, n := range []int64{0, best - 1, best, best + 1, min(best, mtu), min(best, mtu) + 1} {
+						if n < 0 || n > 80000 {
+							continue
+						}
+						ok, rep, fs, err := vc.SendDatagramProbe(mdfs, mtu, int(n))
+						if err != nil {
+							monfail("advenf/senddatagram", err.Error(), fmt.Sprintf("mdfs=%d mtu=%d n=%d", mdfs, mtu, n))
+							continue
+						}
+						// property monitor (the client as a sender within the PEER's advertised limit)
+						if ok && fs > mdfs && mdfs >= 2 {
+							monfail("advenf/senddatagram/over-peer-limit", fmt.Sprintf("SendDatagram(%d bytes) queued a DATAGRAM frame of %d bytes although the peer advertised max_datagram_frame_size %d", n, fs, mdfs), "")
+						}
+						fmt.Fprintf(w, "CASE 1 %s\n", u.App("SendCase", u.Z(mdfs), u.Z(mtu), u.Z(n), u.B(ok), u.Z(rep), u.Z(fs)))
+						dist["send-datagram"]++
+					}
+				}
+			}
+			vc.Close()
+		}
 	}
 	keys := make([]string, 0, len(dist))
 	for k := range dist {
